@@ -301,6 +301,9 @@ type Call struct {
 	Matchers []MatcherSpec `json:"matchers,omitempty"` // json / sjson / yaml
 	// prebuilt, if set, are matcher values built once by the caller and reused across calls (instead of building from Matchers)
 	prebuilt []bothMatcher
+	// EmptyMatchers: with no matchers, the call passes an EMPTY (non-nil) matcher slice (`ms...` of a table case without
+	// matchers) instead of no argument
+	EmptyMatchers bool `json:"empty_matcher_slice,omitempty"`
 }
 
 func (c Call) standalone() bool { return c.API == "ssnap" || c.API == "sjson" }
@@ -341,6 +344,9 @@ func (c Call) invoke(cfg *Config, t *fakeT) callResult {
 	for _, b := range c.prebuilt {
 		jm = append(jm, b)
 		ym = append(ym, b)
+	}
+	if len(c.Matchers) == 0 && len(c.prebuilt) == 0 && c.EmptyMatchers {
+		jm, ym = []match.JSONMatcher{}, []match.YAMLMatcher{}
 	}
 	inputOK := true
 	doc := string(c.Doc)
